@@ -320,7 +320,7 @@ def check(run, repo):
     # the object hook sees every dictionary of the document, including free-form ones kept in notes: whatever is not
     # the serialised form of a registered class must come back untouched (not raise, not be converted)
     hook = jm.functions['json_to_pmutt']
-    Ih = Interp(repo, max_depth=8)
+    Ih = Interp(repo)
     plain = [('no class entry', DictV({'family': 'alcohol', 'n': C(3)})),
              ('class entry that is no pMuTT class', DictV({'family': 'alcohol', 'class': 'oxygenate'})),
              ('class entry that is a number', DictV({'class': C(3)})),
@@ -333,11 +333,11 @@ def check(run, repo):
                   'a dictionary that is not a serialised pMuTT object (%s) must be returned unchanged by the object '
                   'hook; got %s' % (lab, show(r, 80)), jm, hook, sample='json_to_pmutt(%s) is the same dictionary' % lab)
     order = RankOrder({'w0': 5, 'w1': 7, 'b1': 3}, const_ranks=True)
-    I0 = Interp(repo, order=order, max_depth=16)
+    I0 = Interp(repo, order=order)
     labels = [lab for lab, _ in builders(I0, repo)]
     run.floor('serialisable classes', len(labels), 30)
     for idx, label in enumerate(labels):
-        I = Interp(repo, order=order, max_depth=16)
+        I = Interp(repo, order=order)
         fn_build = builders(I, repo)[idx][1]
         try:
             obj = fn_build()
